@@ -279,6 +279,31 @@ type ActionMplsTtl struct {
 	pad     []byte // 3bytes
 }
 
+func (a *ActionMplsTtl) Len() (n uint16) {
+	return a.ActionHeader.Len() + 4
+}
+
+func (a *ActionMplsTtl) MarshalBinary() (data []byte, err error) {
+	data, err = a.ActionHeader.MarshalBinary()
+	if err != nil {
+		return
+	}
+
+	bytes := make([]byte, 4)
+	bytes[0] = a.MplsTtl
+	data = append(data, bytes...)
+	return
+}
+
+func (a *ActionMplsTtl) UnmarshalBinary(data []byte) error {
+	if len(data) < int(a.Len()) {
+		return errors.New("The []byte is too short to unmarshal an ActionMplsTtl message.")
+	}
+	a.ActionHeader.UnmarshalBinary(data[:4])
+	a.MplsTtl = data[4]
+	return nil
+}
+
 type ActionDecNwTtl struct {
 	ActionHeader
 	pad []byte // 4bytes
